@@ -4,11 +4,13 @@ set -u
 patch="$1"; tier="$2"; shift 2
 cd /repo || exit 2
 if [ -n "$(git status --porcelain --untracked-files=no)" ]; then echo "/repo not clean"; exit 2; fi
-git apply "$patch" || { echo "patch does not apply"; exit 2; }
+git apply "$patch" 2>/dev/null || git apply --3way "$patch" || { echo "patch does not apply"; git reset -q HEAD -- . ; git checkout -- . ; exit 2; }
 for id in "$@"; do
   echo "=== $id ($tier) with $(basename $(dirname $patch))/$(basename $patch)"
   (cd /verif && ./check "$id" "$tier" 2>&1 | grep -E "VIOLATION|KNOWN-FINDING|MACHINERY|held on|violation detail" | head -6)
   echo "exit=$?"
 done
+git reset -q HEAD -- . 
 git checkout -- . 
+git clean -fdq src unimock_macros tests
 git status --porcelain --untracked-files=no
